@@ -211,3 +211,249 @@ Proof.
   - rewrite Rw, E, Rz. reflexivity.
   - rewrite Sw, Sz, Rcompare_scale, Sa, Sb. reflexivity.
 Qed.
+
+(* exact scaling itself: x * 2^j, for a finite x that is zero or in range; c is the binary64 number 2^j *)
+Lemma scale_rel K j (x c : BF) :
+  (Z.abs j <= K)%Z ->
+  is_finite c = true -> B2R c = p2 j -> Bsign c = false ->
+  is_finite x = true -> (B2R x = 0 \/ p2 (K - 1021) <= Rabs (B2R x) <= p2 (1023 - K)) ->
+  rel j x (Bmult mode_NE x c).
+Proof.
+  intros Hj Fc Rc Sc Fx Hx.
+  assert (Ex : rndR (B2R x) = B2R x).
+  { apply round_generic; [apply valid_rnd_round_mode|apply generic_format_B2R]. }
+  destruct (core K j (B2R x) Hj) as [E L]; [rewrite Ex; exact Hx|].
+  generalize (Bmult_correct prec emax _ _ mode_NE x c). rewrite Rc, (Rlt_bool_true _ _ L), Fx, Fc.
+  intros (Rw & Fw & Sw). repeat split.
+  - exact Fx.
+  - exact Fw.
+  - rewrite Rw, E, Ex. reflexivity.
+  - rewrite Sw, Sc by (apply fin_not_nan; exact Fw). apply xorb_false_r.
+Qed.
+
+(* ========== Part 3: primitive floats ========== *)
+Notation P2B := Prim2B.
+Notation flt := PrimFloat.float.
+Definition frel (j : Z) (x y : flt) : Prop := rel j (P2B x) (P2B y).
+Definition ffin (x : flt) : Prop := is_finite (P2B x) = true.
+(* the meaning of the boolean range test *)
+Definition rng (K : Z) (X : BF) : Prop :=
+  is_finite X = true /\ (B2R X = 0 \/ p2 (K - 1021) <= Rabs (B2R X) <= p2 (1023 - K)).
+
+Lemma frel_inj j x y y' : frel j x y -> frel j x y' -> y = y'.
+Proof. intros H1 H2. apply Prim2B_inj. exact (rel_inj _ _ _ _ H1 H2). Qed.
+
+Lemma P2B_one : P2B 1%float = Bone.
+Proof. change 1%float with one. rewrite one_equiv. apply Prim2B_B2Prim. Qed.
+Lemma P2B_zero : P2B 0%float = B754_zero false.
+Proof. change 0%float with zero. rewrite zero_equiv. apply Prim2B_B2Prim. Qed.
+Lemma P2B_neg_zero : P2B neg_zero = B754_zero true.
+Proof. rewrite neg_zero_equiv. apply Prim2B_B2Prim. Qed.
+Lemma P2B_infinity : P2B infinity = B754_infinity false.
+Proof. rewrite infinity_equiv. apply Prim2B_B2Prim. Qed.
+
+(* pow2 e is the binary64 number 2^e *)
+Lemma pow2_spec e : (-1074 <= e <= 1023)%Z ->
+  is_finite (P2B (pow2 e)) = true /\ B2R (P2B (pow2 e)) = p2 e /\ Bsign (P2B (pow2 e)) = false.
+Proof.
+  intros He. unfold pow2. rewrite ldexp_equiv, P2B_one.
+  generalize (Bldexp_correct prec emax _ _ mode_NE Bone e).
+  rewrite Bone_correct, Rmult_1_l.
+  rewrite (round_generic radix2 fx (round_mode mode_NE) (p2 e)) by (apply fmt_p2; lia).
+  rewrite Rlt_bool_true.
+  - rewrite is_finite_Bone, Bsign_Bone. intros (A & B & C). auto.
+  - rewrite Rabs_pos_eq by apply bpow_ge_0. apply bpow_lt. unfold emax. lia.
+Qed.
+
+Lemma Bleb_abs_fin (X H : BF) : is_finite H = true -> Bleb (Babs X) H = true -> is_finite X = true.
+Proof. destruct X as [s|s| |s m e B], H as [s'|s'| |s' m' e' B']; cbn; try discriminate; try reflexivity. Qed.
+
+Lemma inr_spec K x : (0 <= K <= 2044)%Z -> inr K x = true ->
+  is_finite (P2B x) = true /\ p2 (K - 1021) <= Rabs (B2R (P2B x)) <= p2 (1023 - K).
+Proof.
+  intros HK. unfold inr. rewrite andb_true_iff, !leb_equiv, abs_equiv. intros [H1 H2].
+  destruct (pow2_spec (K - 1021)) as (F1 & R1 & _); [lia|].
+  destruct (pow2_spec (1023 - K)) as (F2 & R2 & _); [lia|].
+  assert (Fx : is_finite (P2B x) = true) by (eapply Bleb_abs_fin; [exact F2|exact H2]).
+  rewrite Bleb_correct in H1, H2 by (rewrite ?is_finite_Babs; assumption).
+  rewrite B2R_Babs in H1, H2. rewrite R1 in H1. rewrite R2 in H2.
+  split; [exact Fx|]. split; [revert H1|revert H2]; (case Rle_bool_spec; [auto|discriminate]).
+Qed.
+
+Lemma is_zero_spec x : is_zero x = true -> exists s, P2B x = B754_zero s.
+Proof. rewrite is_zero_equiv. destruct (P2B x) as [s| | |]; try discriminate. intros _. exists s. reflexivity. Qed.
+Lemma is_zero_false x : is_zero x = false -> is_finite (P2B x) = true -> B2R (P2B x) <> 0.
+Proof.
+  rewrite is_zero_equiv. destruct (P2B x) as [s|s| |s m e B]; try discriminate. intros _ _.
+  cbn [B2R]. destruct s; [apply Rlt_not_eq, F2R_lt_0|apply Rgt_not_eq, F2R_gt_0]; reflexivity.
+Qed.
+
+Lemma okv_spec K x : (0 <= K <= 2044)%Z -> okv K x = true -> rng K (P2B x).
+Proof.
+  intros HK. unfold okv. rewrite orb_true_iff. intros [H|H].
+  - destruct (is_zero_spec x H) as [s ->]. split; [reflexivity|left; reflexivity].
+  - destruct (inr_spec K x HK H) as [F B]. split; [exact F|right; exact B].
+Qed.
+(* with the information that the value is not a zero *)
+Lemma okv_nz K x : (0 <= K <= 2044)%Z -> okv K x = true -> is_zero x = false ->
+  p2 (K - 1021) <= Rabs (B2R (P2B x)) <= p2 (1023 - K).
+Proof.
+  intros HK H Z. unfold okv in H. rewrite Z in H. cbn [orb] in H. exact (proj2 (inr_spec K x HK H)).
+Qed.
+
+Lemma fscale_rel K j x : (Z.abs j <= K)%Z -> (K <= 1000)%Z -> rng K (P2B x) -> frel j x (fscale j x).
+Proof.
+  intros Hj HK [F B]. unfold frel, fscale. rewrite mul_equiv.
+  destruct (pow2_spec j) as (Fc & Rc & Sc); [lia|].
+  apply (scale_rel K); assumption.
+Qed.
+
+(* x * c * c is x scaled by 2^(j+j), for x in range with margin 2|j| *)
+Lemma fscale2_rel K j x : (Z.abs j <= K)%Z -> (K <= 500)%Z -> rng (2 * K) (P2B x) -> frel (j + j) x (fscale2 j x).
+Proof.
+  intros Hj HK [F B].
+  assert (H1 : frel j x (fscale j x)).
+  { apply (fscale_rel K); [exact Hj|lia|]. split; [exact F|]. destruct B as [B|[B1 B2]]; [left; exact B|right].
+    split; [eapply Rle_trans; [|exact B1]|eapply Rle_trans; [exact B2|]]; apply bpow_le; lia. }
+  unfold frel. apply (rel_trans j j _ (P2B (fscale j x))); [exact H1|].
+  change (fscale2 j x) with (fscale j (fscale j x)). apply (fscale_rel K); [exact Hj|lia|].
+  destruct H1 as (_ & F1 & R1 & _). split; [exact F1|]. rewrite R1.
+  destruct B as [B|[B1 B2]]; [left; rewrite B; ring|right].
+  rewrite Rabs_mult, (Rabs_pos_eq (p2 j)) by apply bpow_ge_0. split.
+  - eapply Rle_trans; [|apply Rmult_le_compat_r; [apply bpow_ge_0|exact B1]]. rewrite <- bpow_plus. apply bpow_le. lia.
+  - eapply Rle_trans; [apply Rmult_le_compat_r; [apply bpow_ge_0|exact B2]|]. rewrite <- bpow_plus. apply bpow_le. lia.
+Qed.
+
+Lemma Rcompare_scale_l x j : Rcompare 0 (x * p2 j) = Rcompare 0 x.
+Proof.
+  transitivity (Rcompare (0 * p2 j) (x * p2 j)); [f_equal; ring|]. apply Rcompare_mult_r. apply bpow_gt_0.
+Qed.
+
+Lemma Bmult_inf_pos (c : BF) j : is_finite c = true -> B2R c = p2 j -> Bsign c = false ->
+  Bmult mode_NE (B754_infinity false) c = B754_infinity false.
+Proof.
+  destruct c as [s|s| |s m e B]; cbn; intros F R S; try discriminate.
+  - exfalso. pose proof (bpow_gt_0 radix2 j). lra.
+  - subst s. reflexivity.
+Qed.
+Lemma fscale_inf j : (-1074 <= j <= 1023)%Z -> fscale j infinity = infinity.
+Proof.
+  intros Hj. apply Prim2B_inj. unfold fscale. rewrite mul_equiv, P2B_infinity.
+  destruct (pow2_spec j Hj) as (F & R & S). exact (Bmult_inf_pos _ j F R S).
+Qed.
+Lemma is_pinf_spec b : is_pinf b = true -> b = infinity.
+Proof.
+  unfold is_pinf. rewrite eqb_equiv, P2B_infinity. intros H. apply Prim2B_inj. rewrite P2B_infinity.
+  destruct (P2B b) as [s|s| |s m e B]; try discriminate.
+  destruct s; [discriminate|reflexivity].
+Qed.
+Lemma Bltb_fin_inf (X : BF) : is_finite X = true -> Bltb X (B754_infinity false) = true.
+Proof. destruct X as [s|s| |s m e B]; try discriminate; intros _; try reflexivity; destruct s; reflexivity. Qed.
+
+(* ---- the op-level laws of scale covariance, for binary64, each under its boolean test ---- *)
+Section Laws.
+Variable k : Z.
+Hypothesis Hk : (Z.abs k <= kmax)%Z.
+Notation K := (Z.abs k).
+Notation K2 := (2 * Z.abs k)%Z.
+Notation sc := (fscale k).
+Notation sc2 := (fscale2 k).
+
+Lemma HK : (0 <= K <= 2044)%Z. Proof. unfold kmax in Hk. lia. Qed.
+Lemma HK2 : (0 <= K2 <= 2044)%Z. Proof. unfold kmax in Hk. lia. Qed.
+
+Lemma sc_ok x : okv K x = true -> frel k x (sc x).
+Proof. intros H. apply (fscale_rel K); [lia|unfold kmax in Hk; lia|apply okv_spec; [exact HK|exact H]]. Qed.
+Lemma sc2_ok x : okv K2 x = true -> frel (k + k) x (sc2 x).
+Proof. intros H. apply (fscale2_rel K); [lia|exact Hk|apply okv_spec; [exact HK2|exact H]]. Qed.
+
+Lemma law_zero : sc 0%float = 0%float.
+Proof.
+  apply (frel_inj k 0%float); [apply sc_ok; reflexivity|]. unfold frel. rewrite P2B_zero.
+  repeat split; cbn; ring.
+Qed.
+Lemma law_szero : sc2 neg_zero = neg_zero.
+Proof.
+  apply (frel_inj (k + k) neg_zero); [apply sc2_ok; reflexivity|]. unfold frel. rewrite P2B_neg_zero.
+  repeat split; cbn; ring.
+Qed.
+Lemma law_inf : sc2 infinity = infinity.
+Proof.
+  change (sc2 infinity) with (sc (sc infinity)). unfold kmax in Hk. rewrite !fscale_inf by lia. reflexivity.
+Qed.
+
+Lemma law_sub a b : f_ok_sub K a b = true -> PrimFloat.sub (sc a) (sc b) = sc (PrimFloat.sub a b).
+Proof.
+  unfold f_ok_sub. rewrite !andb_true_iff. intros [[Ha Hb] Hz].
+  apply (frel_inj k (PrimFloat.sub a b)); [|apply sc_ok; exact Hz].
+  destruct (okv_spec K _ HK Hz) as [Fz Bz]. rewrite sub_equiv in Fz, Bz.
+  unfold frel. rewrite !sub_equiv.
+  apply (minus_rel K); [lia|apply sc_ok, Ha|apply sc_ok, Hb|exact Fz|exact Bz].
+Qed.
+Lemma law_add2 a b : f_ok_add K2 a b = true -> PrimFloat.add (sc2 a) (sc2 b) = sc2 (PrimFloat.add a b).
+Proof.
+  unfold f_ok_add. rewrite !andb_true_iff. intros [[Ha Hb] Hz].
+  apply (frel_inj (k + k) (PrimFloat.add a b)); [|apply sc2_ok; exact Hz].
+  destruct (okv_spec K2 _ HK2 Hz) as [Fz Bz]. rewrite add_equiv in Fz, Bz.
+  unfold frel. rewrite !add_equiv.
+  apply (plus_rel K2); [lia|apply sc2_ok, Ha|apply sc2_ok, Hb|exact Fz|exact Bz].
+Qed.
+Lemma law_mul v r : f_ok_mul K v r = true -> PrimFloat.mul (sc v) r = sc (PrimFloat.mul v r).
+Proof.
+  unfold f_ok_mul, finb. rewrite !andb_true_iff. intros [[[Hv Fr] Hz] Hnz].
+  rewrite is_finite_equiv in Fr.
+  apply (frel_inj k (PrimFloat.mul v r)); [|apply sc_ok; exact Hz].
+  destruct (okv_spec K _ HK Hz) as [Fz _]. rewrite mul_equiv in Fz.
+  unfold frel. rewrite !mul_equiv. replace k with (k + 0)%Z at 1 by lia.
+  apply (mul_rel K); [lia|apply sc_ok, Hv|apply rel_0, Fr|].
+  split; [exact Fz|].
+  destruct (is_zero v) eqn:Zv. { left. destruct (is_zero_spec v Zv) as [s ->]. cbn. ring. }
+  destruct (is_zero r) eqn:Zr. { left. destruct (is_zero_spec r Zr) as [s ->]. cbn. ring. }
+  cbn [orb] in Hnz. rewrite negb_true_iff in Hnz. right. rewrite <- mul_equiv. apply okv_nz; [exact HK|exact Hz|exact Hnz].
+Qed.
+Lemma law_div s r : f_ok_div K s r = true -> PrimFloat.div (sc s) r = sc (PrimFloat.div s r).
+Proof.
+  unfold f_ok_div, finb. rewrite !andb_true_iff, negb_true_iff. intros [[[[Hs Fr] Nr] Hz] Hnz].
+  rewrite is_finite_equiv in Fr.
+  apply (frel_inj k (PrimFloat.div s r)); [|apply sc_ok; exact Hz].
+  destruct (okv_spec K _ HK Hz) as [Fz _]. rewrite div_equiv in Fz.
+  unfold frel. rewrite !div_equiv.
+  apply (div_rel K); [lia|apply sc_ok, Hs|exact Fr|apply is_zero_false; assumption|].
+  split; [exact Fz|].
+  destruct (is_zero s) eqn:Zs. { left. destruct (is_zero_spec s Zs) as [sg ->]. cbn. unfold Rdiv. ring. }
+  cbn [orb] in Hnz. rewrite negb_true_iff in Hnz. right. rewrite <- div_equiv. apply okv_nz; [exact HK|exact Hz|exact Hnz].
+Qed.
+Lemma law_sq x : f_ok_sq k x = true -> PrimFloat.mul (sc x) (sc x) = sc2 (PrimFloat.mul x x).
+Proof.
+  unfold f_ok_sq. rewrite !andb_true_iff. intros [[Hx Hz] Hnz].
+  apply (frel_inj (k + k) (PrimFloat.mul x x)); [|apply sc2_ok; exact Hz].
+  destruct (okv_spec K2 _ HK2 Hz) as [Fz _]. rewrite mul_equiv in Fz.
+  unfold frel. rewrite !mul_equiv.
+  apply (mul_rel K2); [lia|apply sc_ok, Hx|apply sc_ok, Hx|].
+  split; [exact Fz|].
+  destruct (is_zero x) eqn:Zx. { left. destruct (is_zero_spec x Zx) as [s ->]. cbn. ring. }
+  cbn [orb] in Hnz. rewrite negb_true_iff in Hnz. right. rewrite <- mul_equiv. apply okv_nz; [exact HK2|exact Hz|exact Hnz].
+Qed.
+Lemma law_min a b : okv K a = true -> okv K b = true -> f_min (sc a) (sc b) = sc (f_min a b).
+Proof.
+  intros Ha Hb. destruct (sc_ok a Ha) as (Fa & Fa' & Ra & _). destruct (sc_ok b Hb) as (Fb & Fb' & Rb & _).
+  unfold f_min. rewrite !is_nan_equiv, (fin_not_nan _ Fa), (fin_not_nan _ Fb), (fin_not_nan _ Fa'), (fin_not_nan _ Fb').
+  rewrite !ltb_equiv, !Bltb_correct by assumption. rewrite Ra, Rb. unfold Rlt_bool.
+  rewrite Rcompare_mult_r by apply bpow_gt_0. destruct (Rcompare (B2R (P2B b)) (B2R (P2B a))); reflexivity.
+Qed.
+Lemma law_nonneg x : okv K x = true -> f_nonneg (sc x) = f_nonneg x.
+Proof.
+  intros Hx. destruct (sc_ok x Hx) as (Fx & Fx' & Rx & _).
+  unfold f_nonneg. rewrite !leb_equiv, P2B_zero, !Bleb_correct by (reflexivity || assumption).
+  rewrite Rx. cbn [B2R]. unfold Rle_bool. rewrite Rcompare_scale_l. reflexivity.
+Qed.
+Lemma law_lt2 a b : f_ok_lt2 K2 a b = true -> PrimFloat.ltb (sc2 a) (sc2 b) = PrimFloat.ltb a b.
+Proof.
+  unfold f_ok_lt2. rewrite andb_true_iff, orb_true_iff. intros [Ha [Hb|Hb]].
+  - destruct (sc2_ok a Ha) as (Fa & Fa' & Ra & _). destruct (sc2_ok b Hb) as (Fb & Fb' & Rb & _).
+    rewrite !ltb_equiv, !Bltb_correct by assumption. rewrite Ra, Rb. unfold Rlt_bool.
+    rewrite Rcompare_mult_r by apply bpow_gt_0. reflexivity.
+  - apply is_pinf_spec in Hb. subst b. rewrite law_inf.
+    destruct (sc2_ok a Ha) as (Fa & Fa' & _). rewrite !ltb_equiv, P2B_infinity, !Bltb_fin_inf by assumption. reflexivity.
+Qed.
+End Laws.
